@@ -13,18 +13,32 @@ Fixpoint str_eqb (x y : str) : bool :=
 
 (* (the label pyformlang wrote is the model's label, the premises of C20_pda_label_roundtrip hold,
     what the model reads back: 0 = refused (ValueError), 1 = exactly the three fields, 2 = three other texts) *)
-Definition pda_label_judge (a b c l : str) : bool * bool * N :=
+(* the premises of C20_pda_label_roundtrip_fields / C20_fst_label_roundtrip_fields, as booleans *)
+Definition memb (c : N) (s : str) : bool := existsb (N.eqb c) s.
+Definition sep_chars : str := [32; 45; 62; 47].
+Definition last_ok (x : str) : bool := match rev x with e :: _ => negb (memb e sep_chars) | [] => false end.
+Definition head_ok (x : str) : bool := match x with f :: _ => negb (memb f sep_chars) | [] => true end.
+Definition pda_fields_ok (a b c : str) : bool :=
+  last_ok a && last_ok b && head_ok b && head_ok c &&
+  Nat.eqb (occ sep_arrow a) 0 && Nat.eqb (occ sep_arrow b) 0 && Nat.eqb (occ sep_arrow c) 0 &&
+  Nat.eqb (occ sep_slash b) 0 && Nat.eqb (occ sep_slash c) 0.
+Definition fst_fields_ok (a b : str) : bool :=
+  last_ok a && head_ok b && Nat.eqb (occ sep_arrow a) 0 && Nat.eqb (occ sep_arrow b) 0.
+
+Definition pda_label_judge (a b c l : str) : bool * bool * N * bool :=
   (str_eqb (pda_label a b c) l,
    Nat.eqb (occ sep_arrow l) 1 && Nat.eqb (occ sep_slash (b ++ sep_slash ++ c)) 1,
    match read_pda_label l with
    | None => 0
    | Some (x, y, z) => if str_eqb x a && str_eqb y b && str_eqb z c then 1 else 2
-   end).
+   end,
+   pda_fields_ok a b c).
 
-Definition fst_label_judge (a b l : str) : bool * bool * N :=
+Definition fst_label_judge (a b l : str) : bool * bool * N * bool :=
   (str_eqb (fst_label a b) l,
    Nat.eqb (occ sep_arrow l) 1,
    match read_fst_label l with
    | None => 0
    | Some (x, y) => if str_eqb x a && str_eqb y b then 1 else 2
-   end).
+   end,
+   fst_fields_ok a b).
